@@ -15,17 +15,18 @@ package main
 //     global). The expected report is computed per event.
 //
 //	payload: w=<workers> h=<submitters> ev=<events> sinks=<1..3> ff=<0|1> body=<light|heavy> glob=<0|1> burst=<batch size, 1 = AddEventAndWait>
-//	         shadow=<0|1: the declaring scope defines `event` and `v`> nap=<0|1: read-pause-read of event> seed=<n>
-//	result : <lost> <duplicated> <mis-attributed> <wrong echoes>      (the model says 0 0 0 0)
+//	         shadow=<0|1: the declaring scope defines `event` and `v`> nap=<0|1: read-pause-read of event>
+//	         feat=<letters: t try/except re-raise, n nested func + lambda, o object via new, d default parameter,
+//	               i sinks declared inside a function, x without shared(), c cascade of child events> seed=<n>
+//	result : E<errors recorded>:<digest> R<echo records>:<digest> T<global counter|-> S<declaring scope intact 1/0|-> D<duplicate root monitor ids>
+//	         digests = sums of per-record hashes of what was OBSERVED (event the error is recorded under, rule, shape and
+//	         id / sink named inside the error; echoes: id through event / local / function / first read, acc, m.k).
+//	         The Lean driver computes the same line from the payload alone (expected outcome of every (sink, event)).
 
 import (
 	"fmt"
-	"go/ast"
-	"go/token"
 	"os"
-	"path/filepath"
 	"runtime"
-	"sort"
 	"strconv"
 	"strings"
 	"sync"
@@ -39,295 +40,109 @@ import (
 	"github.com/krotik/ecal/util"
 )
 
-// ---------------------------------------------------------------- extractor
+// ---------------------------------------------------------------- stress
 
-type c11Facts struct {
-	found      bool
-	writes     []string // captured variables assigned inside
-	reassigned []string // captured variables re-assigned by the enclosing function after the closure was created / loop variables
-	setup      []string // scope set-up calls in source order (c11ScopeSetup)
+// c11Mix is the deterministic instruction table of a case: a function of (seed, id, salt) that the
+// harness and the Lean driver compute alike (plain integer arithmetic, 15 bits).
+func c11Mix(seed uint64, id, salt int) int {
+	const P = 2147483647
+	a := (seed+1)*1000003 + uint64(id+1)*7919 + uint64(salt)*104729
+	x := (a % P) * 48271 % P
+	y := (x*x + 12345) % P
+	z := (y*69621 + uint64(id) + 1) % P
+	return int((z / 8) % 32768)
 }
 
-func c11Names(entries []string) []string {
-	set := map[string]bool{}
-	for _, e := range entries {
-		set[strings.Fields(e)[0]] = true
-	}
-	var out []string
-	for k := range set {
-		out = append(out, k)
-	}
-	sort.Strings(out)
-	return out
+type c11Cfg struct {
+	seed            uint64
+	sinks           int
+	ff, glob, heavy bool
+	shadow, nap     bool
+	feat            string // t try/except re-raise + finally nap, n nested func + lambda, o object via new, d default parameter, i sinks declared inside a function, x no shared(), c cascade
+	w, h, ev, burst int
 }
 
-// c11Closure analyses the function literal assigned to `<x>.Action` in file.
-func c11Closure(p *srcPkg, f *ast.File) c11Facts {
-	var res c11Facts
-	imports := fileImports(f)
-	for _, d := range f.Decls {
-		fd, ok := d.(*ast.FuncDecl)
-		if !ok || fd.Body == nil {
-			continue
-		}
-		// path of enclosing statements for loop detection
-		var stack []ast.Node
-		ast.Inspect(fd.Body, func(n ast.Node) bool {
-			if n == nil {
-				stack = stack[:len(stack)-1]
-				return true
-			}
-			stack = append(stack, n)
-			as, ok := n.(*ast.AssignStmt)
-			if !ok || len(as.Lhs) != 1 || len(as.Rhs) != 1 {
-				return true
-			}
-			sel, ok := as.Lhs[0].(*ast.SelectorExpr)
-			lit, ok2 := as.Rhs[0].(*ast.FuncLit)
-			if !ok || !ok2 || sel.Sel.Name != "Action" {
-				return true
-			}
-			res.found = true
-			res.setup = c11ScopeSetup(lit)
-			res.writes = append(res.writes, c11Names(capturedWritesOf(lit, nil, p, imports))...)
-			// captured objects referenced inside the literal
-			captured := map[*ast.Object]bool{}
-			ast.Inspect(lit, func(x ast.Node) bool {
-				if id, ok := x.(*ast.Ident); ok && id.Obj != nil && id.Obj.Kind == ast.Var {
-					dp := objPos(id.Obj)
-					if dp != token.NoPos && (dp < lit.Pos() || dp >= lit.End()) && dp >= fd.Pos() && dp < fd.End() {
-						captured[id.Obj] = true
-					}
-				}
-				return true
-			})
-			re := map[string]bool{}
-			// (a) loop variables of loops around the literal
-			for _, anc := range stack {
-				switch l := anc.(type) {
-				case *ast.RangeStmt:
-					for _, e := range []ast.Expr{l.Key, l.Value} {
-						if id, ok := e.(*ast.Ident); ok && id.Obj != nil && captured[id.Obj] {
-							re[id.Name] = true
-						}
-					}
-				case *ast.ForStmt:
-					if init, ok := l.Init.(*ast.AssignStmt); ok {
-						for _, e := range init.Lhs {
-							if id, ok := e.(*ast.Ident); ok && id.Obj != nil && captured[id.Obj] {
-								re[id.Name] = true
-							}
-						}
-					}
-				}
-			}
-			// (b) plain re-assignment of a captured variable after the closure was created
-			forEachWrite(fd.Body, imports, func(t ast.Expr, kind string, pos token.Pos) {
-				if pos >= lit.Pos() && pos < lit.End() {
-					return
-				}
-				if id, ok := unparen(t).(*ast.Ident); ok && id.Obj != nil && captured[id.Obj] && pos > lit.Pos() {
-					re[id.Name] = true
-				}
-			})
-			// (c) inside a loop every assignment of a captured variable in the loop body counts
-			for _, anc := range stack {
-				if _, isFor := anc.(*ast.ForStmt); !isFor {
-					if _, isRange := anc.(*ast.RangeStmt); !isRange {
-						continue
-					}
-				}
-				forEachWrite(anc, imports, func(t ast.Expr, kind string, pos token.Pos) {
-					if pos >= lit.Pos() && pos < lit.End() {
-						return
-					}
-					if id, ok := unparen(t).(*ast.Ident); ok && id.Obj != nil && captured[id.Obj] {
-						re[id.Name] = true
-					}
-				})
-			}
-			for k := range re {
-				res.reassigned = append(res.reassigned, k)
-			}
-			return true
-		})
+func (c *c11Cfg) has(f byte) bool { return strings.IndexByte(c.feat, f) >= 0 }
+
+func (c *c11Cfg) kind(id int) string {
+	if c.sinks >= 2 && c11Mix(c.seed, id, 0)%2 == 1 {
+		return "b"
 	}
-	sort.Strings(res.writes)
-	sort.Strings(res.reassigned)
-	return res
+	return "a"
 }
 
-// c11ScopeSetup returns, in source order, the calls inside fn that set up the fresh scope of
-// an invocation / a call frame: its constructor, the stores into it, the link to its parent
-// and its first use as evaluation scope. Normalised: only these calls, no names of locals.
-func c11ScopeSetup(fn ast.Node) []string {
-	type ev struct {
-		pos  token.Pos
-		what string
-	}
-	var evs []ev
-	var scopeObj *ast.Object
-	ctorOf := func(e ast.Expr) string {
-		c, ok := e.(*ast.CallExpr)
-		if !ok {
-			return ""
-		}
-		sel, ok := c.Fun.(*ast.SelectorExpr)
-		if !ok {
-			return ""
-		}
-		switch sel.Sel.Name {
-		case "NewScope", "NewScopeWithParent", "NewChild":
-			return sel.Sel.Name
-		}
-		return ""
-	}
-	// the scope variable: the first variable initialised by a scope constructor
-	ast.Inspect(fn, func(n ast.Node) bool {
-		if as, ok := n.(*ast.AssignStmt); ok && scopeObj == nil && len(as.Lhs) == 1 && len(as.Rhs) == 1 {
-			if id, ok := as.Lhs[0].(*ast.Ident); ok && id.Obj != nil {
-				if c := ctorOf(as.Rhs[0]); c != "" {
-					scopeObj = id.Obj
-					evs = append(evs, ev{as.Pos(), c})
-				}
-			}
-		}
-		return true
-	})
-	if scopeObj == nil {
-		return nil
-	}
-	isScope := func(e ast.Expr) bool {
-		id, ok := unparen(e).(*ast.Ident)
-		return ok && id.Obj == scopeObj
-	}
-	ast.Inspect(fn, func(n ast.Node) bool {
-		c, ok := n.(*ast.CallExpr)
-		if !ok {
-			return true
-		}
-		sel, ok := c.Fun.(*ast.SelectorExpr)
-		if !ok {
-			return true
-		}
-		switch {
-		case (sel.Sel.Name == "SetValue" || sel.Sel.Name == "SetLocalValue") && isScope(sel.X) && len(c.Args) >= 1:
-			name := "*"
-			if lit, ok := c.Args[0].(*ast.BasicLit); ok && lit.Kind == token.STRING {
-				name = strings.Trim(lit.Value, "\"`")
-			}
-			evs = append(evs, ev{c.Pos(), sel.Sel.Name + ":" + name})
-		case sel.Sel.Name == "SetParentOfScope" && len(c.Args) >= 1 && isScope(c.Args[0]):
-			evs = append(evs, ev{c.Pos(), "SetParentOfScope"})
-		case sel.Sel.Name == "Eval" && len(c.Args) >= 1 && isScope(c.Args[0]):
-			evs = append(evs, ev{c.Pos(), "Eval"})
-		}
-		return true
-	})
-	sort.SliceStable(evs, func(i, j int) bool { return evs[i].pos < evs[j].pos })
-	var out []string
-	for _, e := range evs {
-		if len(out) == 0 || out[len(out)-1] != e.what {
-			out = append(out, e.what)
-		}
-	}
-	return out
-}
-
-func c11Method(p *srcPkg, f *ast.File, recvType, name string) c11Facts {
-	var res c11Facts
-	imports := fileImports(f)
-	for _, d := range f.Decls {
-		fd, ok := d.(*ast.FuncDecl)
-		if !ok || fd.Body == nil || fd.Name.Name != name || funcName(p.name, fd) != p.name+"."+recvType+"."+name {
-			continue
-		}
-		res.found = true
-		var recv *ast.Ident
-		if len(fd.Recv.List[0].Names) == 1 {
-			recv = fd.Recv.List[0].Names[0]
-		}
-		res.writes = c11Names(capturedWritesOf(fd, recv, p, imports))
-		res.setup = c11ScopeSetup(fd)
-	}
-	return res
-}
-
-func c11Extract(args []string) int {
-	if len(args) != 1 {
-		fmt.Fprintln(os.Stderr, "usage: harness C11 -tool extract <out.lean>")
-		return 2
-	}
-	p, err := loadSrcPkg(filepath.Join(repoDir(), "interpreter"))
-	if err != nil {
-		fmt.Fprintln(os.Stderr, "extract:", err)
-		return 2
-	}
-	var sink, fn c11Facts
-	for _, f := range p.files {
-		switch filepath.Base(p.fset.Position(f.Pos()).Filename) {
-		case "rt_sink.go":
-			sink = c11Closure(p, f)
-		case "rt_func.go":
-			fn = c11Method(p, f, "function", "Run")
-		}
-	}
-	list := func(xs []string) string {
-		var q []string
-		for _, x := range xs {
-			q = append(q, sfLeanStr(x))
-		}
-		return "[" + strings.Join(q, ", ") + "]"
-	}
-	pairs := func(xs []string) string {
-		var q []string
-		for _, x := range xs {
-			op, arg := x, ""
-			if i := strings.IndexByte(x, ':'); i >= 0 {
-				op, arg = x[:i], x[i+1:]
-			}
-			q = append(q, "("+leanStr(op)+", "+leanStr(arg)+")")
-		}
-		return "[" + strings.Join(q, ", ") + "]"
-	}
-	var b strings.Builder
-	b.WriteString("/-! GENERATED by `harness C11 -tool extract` from the Go source under test — do not edit.\n")
-	b.WriteString("`capturedWrites`: variables assigned inside the function literal assigned to `rule.Action`\n")
-	b.WriteString("(interpreter/rt_sink.go) but declared outside it (`x(.)` = a component of outer variable x).\n")
-	b.WriteString("`capturedReassigned`: variables the literal refers to which the enclosing function assigns\n")
-	b.WriteString("after creating the closure, or inside / as variable of a loop around it.\n")
-	b.WriteString("`funcRunWrites`: the same for the method `function.Run` (interpreter/rt_func.go): receiver\n")
-	b.WriteString("components and package-level variables it assigns. -/\n")
-	b.WriteString("namespace Ecal.Gen.C11\n\n")
-	b.WriteString("def capturedWrites : List String := " + list(sink.writes) + "\n\n")
-	b.WriteString("def capturedReassigned : List String := " + list(sink.reassigned) + "\n\n")
-	b.WriteString("def funcRunWrites : List String := " + list(fn.writes) + "\n\n")
-	b.WriteString("/-- set-up of the fresh per-invocation scope inside the action closure, in source order: constructor,\n    stores (`(SetValue, <name>)`, `*` = computed name), link to the declaring scope, first use for evaluation -/\n")
-	b.WriteString("def sinkScopeSetup : List (String × String) := " + pairs(sink.setup) + "\n\n")
-	b.WriteString("/-- the same for the call frame scope of `function.Run` -/\n")
-	b.WriteString("def funcRunScopeSetup : List (String × String) := " + pairs(fn.setup) + "\n\n")
-	b.WriteString(fmt.Sprintf("/-- the extractor found the code it is about -/\ndef found : List (String × Bool) := [(\"rule.Action literal\", %v), (\"function.Run\", %v)]\n\n", sink.found, fn.found))
-	b.WriteString("end Ecal.Gen.C11\n")
-	if err := os.WriteFile(args[0], []byte(b.String()), 0644); err != nil {
-		fmt.Fprintln(os.Stderr, "extract:", err)
-		return 2
+// fail: 0 succeed, 1 raise(T_<sink>_<id>, d<id>, id), 2 return id, 3 Go function failing with E_<sink>_<id>
+func (c *c11Cfg) fail(id, s int) int {
+	m := c11Mix(c.seed, id, s)
+	if m%2 == 0 {
+		return 1 + (m/2)%3
 	}
 	return 0
 }
 
+// cas: number of child events sink s2 adds for this event
+func (c *c11Cfg) cas(id int) int {
+	if c.has('c') && c.sinks >= 2 && c11Mix(c.seed, id, 7)%2 == 0 {
+		return 2 + c11Mix(c.seed, id, 8)%3
+	}
+	return 0
+}
 
-// ---------------------------------------------------------------- stress
+// every child event makes its sink add two grandchild events (on whatever worker runs the child):
+// monitors of ONE root are then created by several workers at once
+func c11GrandID(cid, k int) int { return 700000 + (cid-500000)*2 + k }
 
-type c11Record struct {
-	sink          string
-	viaEvent      float64
-	viaLocal      float64
-	viaSharedFunc float64
-	firstRead     float64 // event.state.id read at the start of the invocation (before the pause)
+func c11ChildID(id, j int) int { return 500000 + id*4 + j }
+
+func (c *c11Cfg) childFails(cid int) bool { return c11Mix(c.seed, cid, 1)%2 == 0 }
+
+const c11Mod = 1000003
+
+func c11ErrHash(evid, sinkNo, shape, n, sinkIn int) int {
+	return (evid*31 + sinkNo*7 + shape*3 + n*1009 + sinkIn*13 + 5) % c11Mod
+}
+
+func c11EchoHash(sinkNo, a, b, cc, d, acc, mk int) int {
+	return (sinkNo*7 + a*31 + b*37 + cc*41 + d*43 + acc*47 + mk*53 + 11) % c11Mod
+}
+
+func c11Int(v interface{}) int {
+	if f, ok := v.(float64); ok && f >= 0 && f < 1e9 && f == float64(int(f)) {
+		return int(f)
+	}
+	return 999983
+}
+
+func c11SinkNo(name string) int {
+	switch name {
+	case "s1":
+		return 1
+	case "s2":
+		return 2
+	case "s3":
+		return 3
+	case "sc":
+		return 4
+	case "sg":
+		return 5
+	}
+	return 9
+}
+
+type c11Digest struct {
+	mu     sync.Mutex
+	n, sum int
+}
+
+func (d *c11Digest) add(h int) {
+	d.mu.Lock()
+	d.n++
+	d.sum = (d.sum + h) % c11Mod
+	d.mu.Unlock()
 }
 
 var c11Mu sync.Mutex
-var c11Records []c11Record
+var c11Echo *c11Digest // echo records of the running case
 
 func c11Num(v interface{}) float64 {
 	if f, ok := v.(float64); ok {
@@ -336,59 +151,212 @@ func c11Num(v interface{}) float64 {
 	return -1
 }
 
-func c11Program(sinks int, body string, glob bool, shadow bool, nap bool) string {
+// c11Program: the ECAL program of a case.
+func c11Program(c *c11Cfg) string {
 	var sb strings.Builder
-	if shadow {
+	if c.shadow {
 		// the DECLARING scope holds variables with the names an invocation scope / a call frame
 		// sets itself before it is linked to its parent: they must stay what they are
-		sb.WriteString("event := {\"name\" : \"global\", \"kind\" : \"global\", \"state\" : {\"id\" : -7, \"f1\" : 0, \"f2\" : 0, \"f3\" : 0}}\nv := -7\n")
+		sb.WriteString("event := {\"name\" : \"global\", \"kind\" : \"global\", \"state\" : {\"id\" : -7, \"f1\" : 0, \"f2\" : 0, \"f3\" : 0, \"cas\" : 0}}\nv := -7\n")
 	}
 	sb.WriteString("total := 0\nfunc shared(v) {\n    w := v\n    return w\n}\n")
+	if c.has('n') {
+		sb.WriteString("func outer(a) {\n    func inner(b) {\n        return b\n    }\n    lam := func (q) {\n        return q\n    }\n    return lam(inner(a))\n}\n")
+	}
+	if c.has('o') {
+		sb.WriteString("Box := {\n    \"val\" : 0,\n    \"init\" : func (x0) {\n        this.val := x0\n    },\n    \"get\" : func () {\n        return this.val\n    }\n}\n")
+	}
+	if c.has('d') {
+		// the default value is evaluated in the CALLER's scope: it sees the caller's `event`
+		sb.WriteString("func withdef(a, b=event.state.id) {\n    return b\n}\n")
+	}
+	ind := ""
+	if c.has('i') {
+		sb.WriteString("func declare() {\n")
+		ind = "    "
+	}
 	kinds := []string{`"t.a"`, `"t.*"`, `"t.b"`}
-	for s := 1; s <= sinks; s++ {
-		fmt.Fprintf(&sb, "sink s%d\n    kindmatch [ %s ],\n    priority %d,\n{\n", s, kinds[s-1], s)
-		sb.WriteString("    id := event.state.id\n    loc := id\n")
-		if body == "heavy" {
-			sb.WriteString("    acc := 0\n    for i in range(1, 6) {\n        acc := acc + i + loc\n    }\n")
+	w := func(format string, args ...interface{}) {
+		for _, l := range strings.Split(strings.TrimRight(fmt.Sprintf(format, args...), "\n"), "\n") {
+			sb.WriteString(ind + l + "\n")
 		}
-		sb.WriteString("    viaf := shared(id)\n")
-		if glob {
-			sb.WriteString("    mutex cm {\n        total := total + 1\n    }\n")
+	}
+	for s := 1; s <= c.sinks; s++ {
+		w("sink s%d\n    kindmatch [ %s ],\n    priority %d,\n{", s, kinds[s-1], s)
+		w("    id := event.state.id\n    loc := id")
+		if c.heavy {
+			w("    acc := 0\n    for i in range(1, 5) {\n        acc := acc + i + loc\n    }")
+		} else {
+			w("    acc := loc")
 		}
-		if nap {
+		if c.has('x') {
+			w("    viaf := id")
+		} else {
+			w("    viaf := shared(id)")
+		}
+		if c.has('n') {
+			w("    viaf := outer(viaf)")
+		}
+		if c.has('o') {
+			w("    bx := new(Box, viaf)\n    viaf := bx.get()")
+		}
+		if c.has('d') {
+			w("    viaf := viaf + withdef(1) - id")
+		}
+		if c.glob {
+			w("    mutex cm {\n        total := total + 1\n    }")
+		}
+		if c.nap {
 			// read - pause - read: an overlapping invocation must not change what `event` is here
-			sb.WriteString("    x.nap()\n")
+			w("    x.nap()")
 		}
-		fmt.Fprintf(&sb, "    x.rec(\"s%d\", event.state.id, loc, viaf, id)\n", s)
-		fmt.Fprintf(&sb, "    if event.state.f%d == 1 {\n        raise(\"T_s%d_{{id}}\", \"d{{loc}}\", viaf)\n    }\n", s, s)
-		fmt.Fprintf(&sb, "    if event.state.f%d == 2 {\n        return loc\n    }\n", s)
-		fmt.Fprintf(&sb, "    if event.state.f%d == 3 {\n        x.fail(\"s%d\", viaf)\n    }\n", s, s)
-		if body == "heavy" {
-			sb.WriteString("    m := {\"k\" : loc}\n    loc := m.k + 0\n")
+		w("    m := {\"k\" : loc}")
+		w("    x.rec(\"s%d\", event.state.id, loc, viaf, id, acc, m.k)", s)
+		if s == 2 && c.has('c') {
+			// (not in a loop: a loop body gets a fresh instance state without the monitor, addEvent would
+			// then start an unrelated root monitor)
+			for j := 1; j <= 4; j++ {
+				w("    if event.state.cas >= %d {\n        cid%d := 500000 + id * 4 + %d\n        addEvent(\"c{{cid%d}}\", \"c.x\", {\"id\" : cid%d, \"f1\" : event.state.c%d, \"g1\" : event.state.g%da, \"g2\" : event.state.g%db})\n    }", j, j, j-1, j, j, j, j, j)
+			}
 		}
-		sb.WriteString("}\n")
+		if c.has('t') {
+			w("    if event.state.f%d == 1 {\n        try {\n            try {\n                raise(\"T_s%d_{{id}}\", \"d{{loc}}\", viaf)\n            } finally {\n                x.nap()\n            }\n        } except e {\n            x.nap()\n            raise(e.type, e.detail, e.data)\n        }\n    }", s, s)
+		} else {
+			w("    if event.state.f%d == 1 {\n        raise(\"T_s%d_{{id}}\", \"d{{loc}}\", viaf)\n    }", s, s)
+		}
+		w("    if event.state.f%d == 2 {\n        return loc\n    }", s)
+		w("    if event.state.f%d == 3 {\n        x.fail(\"s%d\", viaf)\n    }", s, s)
+		w("}")
+	}
+	if c.has('c') {
+		w("sink sc\n    kindmatch [ \"c.x\" ],\n    priority 1,\n{")
+		w("    cid := event.state.id\n    cl := cid\n    x.rec(\"sc\", event.state.id, cl, cid, cid, cl, cid)")
+		w("    gid1 := 700000 + (cid - 500000) * 2\n    addEvent(\"g{{gid1}}\", \"g.x\", {\"id\" : gid1, \"f1\" : event.state.g1})")
+		w("    gid2 := gid1 + 1\n    addEvent(\"g{{gid2}}\", \"g.x\", {\"id\" : gid2, \"f1\" : event.state.g2})")
+		w("    if event.state.f1 == 1 {\n        raise(\"T_sc_{{cid}}\", \"d{{cl}}\", cid)\n    }\n}")
+		w("sink sg\n    kindmatch [ \"g.x\" ],\n    priority 1,\n{")
+		w("    gid := event.state.id\n    gl := gid\n    x.rec(\"sg\", event.state.id, gl, gid, gid, gl, gid)")
+		w("    if event.state.f1 == 1 {\n        raise(\"T_sg_{{gid}}\", \"d{{gl}}\", gid)\n    }\n}")
+	}
+	if c.has('i') {
+		sb.WriteString("}\ndeclare()\n")
 	}
 	return sb.String()
 }
 
-type c11Event struct {
-	id   int
-	kind string // "a" | "b"
-	fail [4]int // per sink: 0 succeed, 1 raise(T_<sink>_<id>), 2 return <id>, 3 a Go function returning error E_<sink>_<id>
+// c11ExpectedLine mirrors the Lean driver (Ecal.Drv.C11): the result line the payload dictates.
+// It is NOT used by the check (the model side of the comparison is the Lean driver); it serves
+// `harness C11 -tool expect <payload>` when reading a replay.
+func c11ExpectedLine(c *c11Cfg) string {
+	en, es, rn, rs, inv := 0, 0, 0, 0, 0
+	for id := 0; id < c.ev; id++ {
+		kind := c.kind(id)
+		for s := 1; s <= c.sinks; s++ {
+			if !((s == 1 && kind == "a") || s == 2 || (s == 3 && kind == "b")) {
+				continue
+			}
+			inv++
+			acc := id
+			if c.heavy {
+				acc = 15 + 5*id
+			}
+			rn++
+			rs = (rs + c11EchoHash(s, id, id, id, id, acc, id)) % c11Mod
+			if s == 2 {
+				for j := 0; j < c.cas(id); j++ {
+					cid := c11ChildID(id, j)
+					rn++
+					rs = (rs + c11EchoHash(4, cid, cid, cid, cid, cid, cid)) % c11Mod
+					if c.childFails(cid) {
+						en++
+						es = (es + c11ErrHash(cid, 4, 1, cid, 4)) % c11Mod
+					}
+					for k := 0; k < 2; k++ {
+						gid := c11GrandID(cid, k)
+						rn++
+						rs = (rs + c11EchoHash(5, gid, gid, gid, gid, gid, gid)) % c11Mod
+						if c.childFails(gid) {
+							en++
+							es = (es + c11ErrHash(gid, 5, 1, gid, 5)) % c11Mod
+						}
+					}
+				}
+			}
+			if f := c.fail(id, s); f != 0 {
+				en++
+				es = (es + c11ErrHash(id, s, f, id, s)) % c11Mod
+				if c.ff {
+					break
+				}
+			}
+		}
+	}
+	tot, sh := "-", "-"
+	if c.glob {
+		tot = fmt.Sprint(inv)
+	}
+	if c.shadow {
+		sh = "1"
+	}
+	return fmt.Sprintf("E%d:%d R%d:%d T%s S%s D0", en, es, rn, rs, tot, sh)
 }
 
-// c11Expected: which sinks run for the event and which of them fail.
-func c11Expected(e c11Event, sinks int, ff bool) (runs []string, fails []string) {
-	for s := 1; s <= sinks; s++ {
-		trig := (s == 1 && e.kind == "a") || s == 2 || (s == 3 && e.kind == "b")
-		if !trig {
-			continue
+func c11ParseCfg(payload string) *c11Cfg {
+	f := map[string]string{}
+	for _, kv := range strings.Fields(payload) {
+		if i := strings.IndexByte(kv, '='); i > 0 {
+			f[kv[:i]] = kv[i+1:]
 		}
-		runs = append(runs, fmt.Sprintf("s%d", s))
-		if e.fail[s] != 0 {
-			fails = append(fails, fmt.Sprintf("s%d", s))
-			if ff {
-				break
+	}
+	c := &c11Cfg{w: c13Field(f, "w", 4), h: c13Field(f, "h", 8), ev: c13Field(f, "ev", 500), sinks: c13Field(f, "sinks", 1),
+		burst: c13Field(f, "burst", 1), ff: f["ff"] == "1", glob: f["glob"] == "1", heavy: f["body"] == "heavy",
+		shadow: f["shadow"] == "1", nap: f["nap"] == "1", feat: f["feat"]}
+	c.seed, _ = strconv.ParseUint(f["seed"], 10, 64)
+	if c.feat == "-" {
+		c.feat = ""
+	}
+	return c
+}
+
+// c11Classify turns one recorded error into (shape, n, sink named in the error): what the
+// invocation's code produced, read back from the error object alone.
+func c11Classify(rule string, evid int, rerr error) (shape, n, sinkIn int) {
+	d, isD := rerr.(*util.RuntimeErrorWithDetail)
+	if !isD || d == nil || d.RuntimeError == nil || d.Type == nil {
+		return 9, 0, 0
+	}
+	shape, n, sinkIn = 9, 0, 0
+	typ := d.Type.Error()
+	switch {
+	case d.Type == util.ErrReturn:
+		shape, n, sinkIn = 2, c11Int(d.Data), c11SinkNo(rule)
+	case strings.HasPrefix(typ, "T_"):
+		parts := strings.Split(typ, "_")
+		if len(parts) == 3 {
+			if k, err := strconv.Atoi(parts[2]); err == nil && d.Detail == fmt.Sprintf("d%d", k) && c11Int(d.Data) == k {
+				shape, n, sinkIn = 1, k, c11SinkNo(parts[1])
+			}
+		}
+	default:
+		if i := strings.Index(d.Detail, "E_"); i >= 0 && d.Data == nil {
+			rest := d.Detail[i+2:]
+			if j := strings.IndexByte(rest, ';'); j > 0 {
+				parts := strings.Split(rest[:j], "_")
+				if len(parts) == 2 {
+					if k, err := strconv.Atoi(parts[1]); err == nil {
+						shape, n, sinkIn = 3, k, c11SinkNo(parts[0])
+					}
+				}
+			}
+		}
+	}
+	// the environment attached to the error is the invocation's own scope
+	if env, isScope := d.Environment.(ecalparser.Scope); isScope && env != nil {
+		if ev, _, _ := env.GetValue("event"); ev != nil {
+			if em, isMap := ev.(map[interface{}]interface{}); isMap {
+				if st, isMap := em["state"].(map[interface{}]interface{}); isMap && c11Int(st["id"]) != evid {
+					shape += 10
+				}
 			}
 		}
 	}
@@ -396,31 +364,23 @@ func c11Expected(e c11Event, sinks int, ff bool) (runs []string, fails []string)
 }
 
 func c11Run(payload string) string {
-	f := map[string]string{}
-	for _, kv := range strings.Fields(payload) {
-		if i := strings.IndexByte(kv, '='); i > 0 {
-			f[kv[:i]] = kv[i+1:]
-		}
+	if s := concSkip(); s != "" {
+		return s
 	}
-	w, h, ev, sinks := c13Field(f, "w", 4), c13Field(f, "h", 8), c13Field(f, "ev", 500), c13Field(f, "sinks", 1)
-	ff, glob := f["ff"] == "1", f["glob"] == "1"
-	shadow, nap := f["shadow"] == "1", f["nap"] == "1"
-	burst := c13Field(f, "burst", 1)
-	seed, _ := strconv.ParseUint(f["seed"], 10, 64)
-	r := NewRand(seed)
-
+	c := c11ParseCfg(payload)
+	echo := &c11Digest{}
 	c11Mu.Lock()
-	c11Records = nil
+	c11Echo = echo
 	c11Mu.Unlock()
 
 	erp := interpreter.NewECALRuntimeProvider("t", nil, &memLog{})
 	defer erp.Cron.Stop()
-	proc := engine.NewProcessor(w)
+	proc := engine.NewProcessor(c.w)
 	proc.ThreadPool().TooManyCallback = func() {} // the default prints a warning to stderr
-	proc.SetFailOnFirstErrorInTriggerSequence(ff)
+	proc.SetFailOnFirstErrorInTriggerSequence(c.ff)
 	erp.Processor = proc
 	vs := scope.NewScope(scope.GlobalScope)
-	ast, err := ecalparser.ParseWithRuntime("t", c11Program(sinks, f["body"], glob, shadow, nap), erp)
+	ast, err := ecalparser.ParseWithRuntime("t", c11Program(c), erp)
 	if err != nil {
 		return "setup-parse-error " + hx(err.Error())
 	}
@@ -433,104 +393,65 @@ func c11Run(payload string) string {
 	proc.Start()
 	defer proc.Finish()
 
-	events := make([]c11Event, ev)
-	for i := range events {
-		e := c11Event{id: i, kind: "a"}
-		if sinks >= 2 && r.Bool() {
-			e.kind = "b"
-		}
-		for s := 1; s <= 3; s++ {
-			if r.Intn(2) == 0 {
-				e.fail[s] = 1 + r.Intn(3)
-			}
-		}
-		events[i] = e
-	}
-
-	var lost, dup, misattr, echo int
+	errs := &c11Digest{}
 	var progress int64
-	var cmu sync.Mutex
 	var wg sync.WaitGroup
 	start := make(chan struct{})
-	for t := 0; t < h; t++ {
+	mkEvent := func(id int) *engine.Event {
+		state := map[interface{}]interface{}{"id": float64(id), "f1": float64(c.fail(id, 1)), "f2": float64(c.fail(id, 2)),
+			"f3": float64(c.fail(id, 3)), "cas": float64(c.cas(id))}
+		b2f := func(b bool) float64 {
+			if b {
+				return 1
+			}
+			return 0
+		}
+		for j := 1; j <= 4 && c.has('c'); j++ {
+			cid := c11ChildID(id, j-1)
+			state[fmt.Sprintf("c%d", j)] = b2f(c.childFails(cid))
+			state[fmt.Sprintf("g%da", j)] = b2f(c.childFails(c11GrandID(cid, 0)))
+			state[fmt.Sprintf("g%db", j)] = b2f(c.childFails(c11GrandID(cid, 1)))
+		}
+		return engine.NewEvent(fmt.Sprintf("e%d", id), []string{"t", c.kind(id)}, state)
+	}
+	// collect: every error recorded under the root monitor of an event, as it is
+	var idMu sync.Mutex
+	rootIDs := map[uint64]int{}
+	collect := func(rm *engine.RootMonitor) {
+		idMu.Lock()
+		rootIDs[rm.ID()]++ // every event was given its own root monitor: the ids must be distinct
+		idMu.Unlock()
+		for _, te := range rm.AllErrors() {
+			evid := 999983
+			if te.Event != nil {
+				evid = c11Int(te.Event.State()["id"])
+			}
+			for rule, rerr := range te.ErrorMap {
+				shape, n, sinkIn := c11Classify(rule, evid, rerr)
+				if os.Getenv("C11_DEBUG") != "" {
+					fmt.Fprintln(os.Stderr, "recorded:", evid, rule, shape, n, sinkIn, rerr)
+				}
+				errs.add(c11ErrHash(evid, c11SinkNo(rule), shape, n, sinkIn))
+			}
+		}
+		atomic.AddInt64(&progress, 1)
+	}
+	for t := 0; t < c.h; t++ {
 		wg.Add(1)
 		go func(t int) {
 			defer wg.Done()
 			<-start
-			mkEvent := func(e c11Event) *engine.Event {
-				state := map[interface{}]interface{}{"id": float64(e.id), "f1": float64(e.fail[1]), "f2": float64(e.fail[2]), "f3": float64(e.fail[3])}
-				return engine.NewEvent(fmt.Sprintf("e%d", e.id), []string{"t", e.kind}, state)
+			var mine []int
+			for i := t; i < c.ev; i += c.h {
+				mine = append(mine, i)
 			}
-			// judge compares the report of one event with what its payload dictates
-			judge := func(e c11Event, rm *engine.RootMonitor, processed bool) {
-				l, d, ma := 0, 0, 0
-				_, fails := c11Expected(e, sinks, ff)
-				seen := map[string]int{}
-				if !processed {
-					l += len(fails) // the event was not processed at all
-				} else {
-					for _, te := range rm.AllErrors() {
-						if te.Event == nil || c11Num(te.Event.State()["id"]) != float64(e.id) {
-							ma++
-							continue
-						}
-						for rule, rerr := range te.ErrorMap {
-							ok := false
-							if d, isD := rerr.(*util.RuntimeErrorWithDetail); isD && d != nil && d.RuntimeError != nil && d.Type != nil && len(rule) == 2 {
-								switch e.fail[int(rule[1]-'0')] {
-								case 1:
-									ok = d.Type.Error() == fmt.Sprintf("T_%s_%d", rule, e.id) && d.Detail == fmt.Sprintf("d%d", e.id) && c11Num(d.Data) == float64(e.id)
-								case 2:
-									ok = d.Type == util.ErrReturn && c11Num(d.Data) == float64(e.id)
-								case 3:
-									ok = strings.Contains(d.Detail, fmt.Sprintf("E_%s_%d;", rule, e.id)) && d.Data == nil
-								}
-								if env, isScope := d.Environment.(ecalparser.Scope); ok && isScope && env != nil {
-									// the environment attached to the error is the invocation's own scope
-									if ev, _, _ := env.GetValue("event"); ev != nil {
-										if em, isMap := ev.(map[interface{}]interface{}); isMap {
-											if st, isMap := em["state"].(map[interface{}]interface{}); isMap && c11Num(st["id"]) != float64(e.id) {
-												ok = false
-											}
-										}
-									}
-								}
-							}
-							if !ok {
-								ma++ // an error which this invocation's code did not produce for this event
-								continue
-							}
-							seen[rule]++
-						}
-					}
-				}
-				for _, s := range fails {
-					if seen[s] == 0 {
-						l++
-					} else if seen[s] > 1 {
-						d += seen[s] - 1
-					}
-					delete(seen, s)
-				}
-				for range seen {
-					ma++ // a correct-looking error for a sink that must not have failed / run
-				}
-				cmu.Lock()
-				lost, dup, misattr = lost+l, dup+d, misattr+ma
-				cmu.Unlock()
-				atomic.AddInt64(&progress, 1)
-			}
-			var mine []c11Event
-			for i := t; i < len(events); i += h {
-				mine = append(mine, events[i])
-			}
-			if burst <= 1 {
-				for _, e := range mine {
-					m, err := proc.AddEventAndWait(mkEvent(e), nil)
-					if err != nil || m == nil {
-						judge(e, nil, false)
+			if c.burst <= 1 {
+				for _, id := range mine {
+					m, err := proc.AddEventAndWait(mkEvent(id), nil)
+					if err == nil && m != nil {
+						collect(m.RootMonitor())
 					} else {
-						judge(e, m.RootMonitor(), true)
+						atomic.AddInt64(&progress, 1)
 					}
 				}
 				return
@@ -538,29 +459,32 @@ func c11Run(payload string) string {
 			// burst submission: a batch of events is queued without waiting, so the workers
 			// run invocations back to back
 			for len(mine) > 0 {
-				n := burst
+				n := c.burst
 				if n > len(mine) {
 					n = len(mine)
 				}
 				batch := mine[:n]
 				mine = mine[n:]
 				rms := make([]*engine.RootMonitor, n)
-				okv := make([]bool, n)
 				var bw sync.WaitGroup
-				for i, e := range batch {
+				for i, id := range batch {
 					rm := proc.NewRootMonitor(nil, nil)
 					rm.SetFinishHandler(func(engine.Processor) { bw.Done() })
 					bw.Add(1)
-					m, err := proc.AddEvent(mkEvent(e), rm)
+					m, err := proc.AddEvent(mkEvent(id), rm)
 					if err != nil || m == nil {
 						bw.Done()
 						continue
 					}
-					rms[i], okv[i] = rm, true
+					rms[i] = rm
 				}
 				bw.Wait()
-				for i, e := range batch {
-					judge(e, rms[i], okv[i])
+				for i := range batch {
+					if rms[i] != nil {
+						collect(rms[i])
+					} else {
+						atomic.AddInt64(&progress, 1)
+					}
 				}
 			}
 		}(t)
@@ -580,41 +504,18 @@ func c11Run(payload string) string {
 		if p := atomic.LoadInt64(&progress); p != last {
 			last, lastAt = p, time.Now()
 		} else if time.Since(lastAt) > 30*time.Second {
-			return "HANG " + c13StuckFrames()
+			return concStuck()
 		}
 	}
 
-	// echoes: every expected (sink, id) exactly once, all three routes agree
-	want := map[string]int{}
-	nInv := 0
-	for _, e := range events {
-		runs, _ := c11Expected(e, sinks, ff)
-		for _, s := range runs {
-			want[fmt.Sprintf("%s/%d", s, e.id)]++
-			nInv++
-		}
+	tot, shadow := "-", "-"
+	if c.glob {
+		v, _, _ := vs.GetValue("total")
+		tot = fmt.Sprint(c11Int(v))
 	}
-	c11Mu.Lock()
-	recs := c11Records
-	c11Records = nil
-	c11Mu.Unlock()
-	for _, rc := range recs {
-		if rc.viaEvent != rc.viaLocal || rc.viaEvent != rc.viaSharedFunc || rc.viaEvent != rc.firstRead {
-			echo++
-			continue
-		}
-		k := fmt.Sprintf("%s/%d", rc.sink, int(rc.viaEvent))
-		if want[k] <= 0 {
-			echo++ // an invocation nobody asked for, or a second one
-			continue
-		}
-		want[k]--
-	}
-	for _, n := range want {
-		echo += n // invocations that never reported
-	}
-	if shadow {
+	if c.shadow {
 		// the variables of the declaring scope are untouched
+		shadow = "1"
 		gev, _, _ := vs.GetValue("event")
 		gid := float64(0)
 		if em, ok := gev.(map[interface{}]interface{}); ok {
@@ -622,21 +523,16 @@ func c11Run(payload string) string {
 				gid = c11Num(st["id"])
 			}
 		}
-		if gid != -7 {
-			echo++ // an invocation stored its `event` in the declaring scope
-		}
-		if gv, _, _ := vs.GetValue("v"); c11Num(gv) != -7 {
-			echo++ // a call frame stored its parameter in the declaring scope
+		if gv, _, _ := vs.GetValue("v"); gid != -7 || c11Num(gv) != -7 {
+			shadow = "0" // an invocation / a call frame stored into the declaring scope
 		}
 	}
-	if glob {
-		if tot, _, _ := vs.GetValue("total"); c11Num(tot) != float64(nInv) {
-			echo++ // the lock-protected global counter lost an update
-		}
+	runStats["run.invocations"] += echo.n
+	dupIDs := 0
+	for _, n := range rootIDs {
+		dupIDs += n - 1
 	}
-	CountRun("run.invocations")
-	runStats["run.invocations"] += nInv - 1
-	return fmt.Sprintf("%d %d %d %d", lost, dup, misattr, echo)
+	return fmt.Sprintf("E%d:%d R%d:%d T%s S%s D%d", errs.n, errs.sum, echo.n, echo.sum, tot, shadow, dupIDs)
 }
 
 func init() {
@@ -652,13 +548,16 @@ func init() {
 				return nil, fmt.Errorf("E_%v_%v;", args[0], args[1])
 			})
 			registerX("rec", func(args []interface{}) (interface{}, error) {
-				if len(args) != 5 {
-					return nil, fmt.Errorf("rec: 5 arguments")
+				if len(args) != 7 {
+					return nil, fmt.Errorf("rec: 7 arguments")
 				}
-				rc := c11Record{fmt.Sprint(args[0]), c11Num(args[1]), c11Num(args[2]), c11Num(args[3]), c11Num(args[4])}
+				h := c11EchoHash(c11SinkNo(fmt.Sprint(args[0])), c11Int(args[1]), c11Int(args[2]), c11Int(args[3]), c11Int(args[4]), c11Int(args[5]), c11Int(args[6]))
 				c11Mu.Lock()
-				c11Records = append(c11Records, rc)
+				d := c11Echo
 				c11Mu.Unlock()
+				if d != nil {
+					d.add(h)
+				}
 				return nil, nil
 			})
 		},
@@ -666,20 +565,36 @@ func init() {
 			if len(args) >= 1 && args[0] == "extract" {
 				return c11Extract(args[1:])
 			}
+			if len(args) >= 2 && args[0] == "eval" { // evaluate a piece of ECAL (debugging aid)
+				v, err := evalProgram(args[1], newGlobalScope(), &memLog{})
+				fmt.Println(v, err)
+				return 0
+			}
+			if len(args) >= 2 && args[0] == "expect" {
+				fmt.Println(c11ExpectedLine(c11ParseCfg(args[1])))
+				return 0
+			}
 			if len(args) >= 1 && args[0] == "program" {
-				fmt.Print(c11Program(3, "heavy", true, true, true))
+				feat := "tnodic"
+				if len(args) > 1 {
+					feat = args[1]
+				}
+				fmt.Print(c11Program(&c11Cfg{sinks: 3, heavy: true, glob: true, shadow: true, nap: true, feat: feat}))
 				return 0
 			}
 			fmt.Fprintln(os.Stderr, "usage: harness C11 -tool extract <out.lean>")
 			return 2
 		},
 		Gen: func(g *Gen) {
-			cases, ev := 48, 3000
+			cases, ev := 48, 15000
 			if g.Thorough() {
-				cases, ev = 240, 5000
+				cases, ev = 240, 25000
 			}
 			if v := os.Getenv("VERIF_C11_CASES"); v != "" {
 				cases, _ = strconv.Atoi(v)
+			}
+			if v := os.Getenv("VERIF_C11_EVENTS"); v != "" {
+				ev, _ = strconv.Atoi(v)
 			}
 			for c := 0; c < cases; c++ {
 				w := []int{2, 3, 4, 8, 16, 6, 12, 16}[g.R.Intn(8)]
@@ -691,8 +606,6 @@ func init() {
 				if g.R.Intn(3) == 0 {
 					glob = 1
 				}
-				g.Count(fmt.Sprintf("workers %02d", w))
-				g.Count(fmt.Sprintf("sinks %d", sinks))
 				burst := []int{1, 1, 16, 64}[g.R.Intn(4)]
 				shadow, nap, evc := 0, 0, ev
 				if g.R.Intn(3) == 0 {
@@ -701,11 +614,35 @@ func init() {
 				if g.R.Intn(3) == 0 {
 					nap, evc = 1, ev/3
 				}
+				feat := ""
+				for _, f := range "tnodixc" {
+					if g.R.Intn(3) == 0 || (f == 'c' && g.R.Intn(3) == 0) {
+						feat += string(f)
+					}
+				}
+				if strings.Contains(feat, "c") {
+					evc = evc / 3 // every second event then causes 7..13 invocations under one root monitor
+					if sinks < 2 {
+						sinks = 2
+					}
+
+				}
+				if strings.ContainsAny(feat, "tnod") {
+					evc = evc * 2 / 3
+				}
+				if feat == "" {
+					feat = "-"
+				}
+				g.Count(fmt.Sprintf("workers %02d", w))
+				g.Count(fmt.Sprintf("sinks %d", sinks))
 				g.Count("body " + body)
 				g.Count(fmt.Sprintf("burst %02d", burst))
 				g.Count(fmt.Sprintf("declaring scope defines event/v %d", shadow))
 				g.Count(fmt.Sprintf("read-pause-read %d", nap))
-				g.Emit(fmt.Sprintf("w=%d h=%d ev=%d sinks=%d ff=%d body=%s glob=%d burst=%d shadow=%d nap=%d seed=%d", w, h, evc, sinks, ff, body, glob, burst, shadow, nap, g.R.U64()%1000000))
+				for _, f := range feat {
+					g.Count("feature " + string(f))
+				}
+				g.Emit(fmt.Sprintf("w=%d h=%d ev=%d sinks=%d ff=%d body=%s glob=%d burst=%d shadow=%d nap=%d feat=%s seed=%d", w, h, evc, sinks, ff, body, glob, burst, shadow, nap, feat, g.R.U64()%1000000))
 			}
 		},
 		Run: c11Run,
